@@ -14,8 +14,9 @@ class C03(Prop):
     o_fields = ['det']
     k_is_o = True
     rule = ('17 operators in unary, binary and ternary position over 59 operand descriptors (44 boundary values of every kind, defined/undefined '
-            'variables, failing/missing/echoing/constant calls), failing elements at every position of arrays and argument lists, random trees to depth 6 '
-            '(8 in thorough); compared: result bit-exactly or error variant+payload against the extracted Coq interpreter (the language definition); '
+            'variables, failing/missing/echoing/constant calls), failing elements at every position of arrays and argument lists, all pairs of 33 signed numbers (whole, fractional, tiny, huge, signed zeros, non-finite) '
+            'under the 12 arithmetic and comparison operators, signed numeric strings against numbers, arrays whose elements are cross-kind-equal pairs under = <> < <= > >=, '
+            'random trees to depth 6 (8 in thorough); compared: result bit-exactly or error variant+payload against the extracted Coq interpreter (the language definition); '
             'distinct = distinct (result) strings on the implementation')
     assumptions = COMMON_ASSUME
 
@@ -52,8 +53,8 @@ class C10(Prop):
     o_fields = ['O10', 'O10s', 'arity', 'bcount']
     rule = ('trees with conditionals and nested calls/arrays over environments registering every arity kind (exact, optional, variadic, none; pure and '
             'impure) called with 0..4 arguments, bound and unbound variables; oracle: accepted => execute never yields UndefinedVariable/FunctionNotFound, '
-            'still accepted after optimize; function_exists verdict == registered arity for every registered builtin and count 0..max+1; no '
-            'WrongParameterCount for documented-kind arguments within the range')
+            'still accepted after optimize; function_exists verdict == registered arity (and registered purity) for every arity kind and every registered builtin at counts 0..8 and at '
+            'every magnitude boundary up to usize::MAX, the validator\'s verdict on real calls with up to 1001 arguments; no WrongParameterCount for documented-kind arguments within the range')
     assumptions = COMMON_ASSUME
 
     def gen(self, tier, R):
@@ -67,7 +68,9 @@ class C05(Prop):
     pid = 'C05'
     k_fields = ['S', 'E', 'B', 'A']
     o_fields = ['O05v', 'O05x']
-    rule = ('every registered scripted function x every count 0..4 with literal/variable arguments under four contexts, then random trees to depth 5 (7) '
+    rule = ('every registered scripted function x every count 0..4 with literal/variable arguments under four contexts, the classic unsound rewrites of an algebraic simplifier '
+            '(identities with every constant kind, re-association of + - * / over constants where rounding shows, concatenation) under bindings of every kind, constant nesting '
+            'to depth 50 (63) over ten wrappers, then random trees to depth 5 (7) '
             'over literals, bound and unbound variables, all operators, arrays, conditionals, if_then with 0..4 arguments, pure/impure/failing/unknown calls, '
             'three bindings per tree; oracle: names resolve and value before => identical value after (also on the partially rewritten tree when optimize '
             'fails); no if_then/3 => identical result; distinct = distinct (status, optimized tree) pairs')
@@ -150,7 +153,8 @@ class C07(Prop):
     per_case_timeout = 0.25
     rule = ('all sequences of up to 3 (4) lexical fragments from a 37-fragment alphabet (every token, quote, comment markers, dot, non-ASCII letter/digit/symbol), '
             'every third (every) prefix and single-character mutations/deletions of rendered scripts, unbalanced delimiters, unary chains and comment/string '
-            'openers nested 1..65 deep, random Unicode text; the implementation runs in child processes with crash isolation and a per-case time cap: a crash, '
+            'openers nested 1..65 deep, flat chains of 200..20000 (30000) operands for each of the 15 binary operators and 20000-element lists/strings/comments (inputs over 2000 '
+            'characters are compiled on a 192 KiB thread so that stack growth with the LENGTH of the input shows early; the 3000-operand chains also in a debug build), random Unicode text; the implementation runs in child processes with crash isolation and a per-case time cap: a crash, '
             'abort, stack overflow or hang is a violation; outcome (tree or error kind + payload) compared with the model')
     assumptions = COMMON_ASSUME + ['stack bytes per recursion level and wall-clock time are observed on the real code, not proved']
 
@@ -208,7 +212,8 @@ class C15(Prop):
             'strings (ASCII, 2/3/4-byte, combining, empty, CSV, whitespace, special-casing letters) x positions -1..8 and boundary magnitudes x counts x 18 needles, '
             '8 arrays (heterogeneous, nested, empty) x positions x elements, random strings; in both index-base configurations (default build and '
             'zero_based_strings build); compared with the sequence model in Coq (result or error variant); oracle on the implementation alone (poscoh): at '
-            'enumerates s, copy(s, find(s,x), length(x)) = x for every substring, failed find = first-1, count/contains/insert/reverse/unique coherence')
+            'enumerates s, copy(s, find(s,x), length(x)) = x for every substring, failed find = first-1, count/contains/insert/reverse/unique coherence, lowercase/uppercase = the '
+            'Unicode mappings of the text, same_text(a,b) iff lowercase(a) = lowercase(b) on five partners per string')
     assumptions = COMMON_ASSUME + ['Unicode case mapping beyond ASCII is not modelled (those cases are compared by the coherence oracle only)']
 
     def gen(self, tier, R):
@@ -260,7 +265,8 @@ class C13(Prop):
     rule = ('all ordered pairs of a 40-value pool (NaN, signed zeros, infinities, numeric and non-numeric strings, booleans, nested and mixed arrays) through Value::cmp/== '
             'and compare(); 12000 sampled (all 64000) triples: the order laws through the operators evaluated by execute, compare, between, min/max (ord3); arrays of '
             '0..12 and 100..300 elements: sort is a permutation, ordered, idempotent, min/max are bounding members (sortlaws) and sort/min/max equal the stable-sort '
-            'model on tame arrays; a failing case whose leaves contain a NaN, or a Number next to a numerically parsable String, is the recorded known finding')
+            'model; arrays mixing numbers and numeric strings CONSISTENTLY; a failure counts as the recorded known finding only when the documented order, re-implemented independently '
+            '(vlib/reford.py), is not a total preorder on the values of that case, and only for the laws that intransitivity explains')
     assumptions = COMMON_ASSUME + ['on arrays that are not tame the result of slice::sort is algorithm-dependent: only permutation/no-panic is compared there']
 
     def gen(self, tier, R):
@@ -303,7 +309,7 @@ class C09(Prop):
     rule = ('every registered function (names from the regenerated registration table) x no argument, each of 103 boundary values (NaN, infinities, signed zero, '
             'huge/fractional/negative numbers as indices, counts, dates, code points; empty and non-ASCII strings; malformed chrono format strings and regular '
             'expressions; nested, heterogeneous, 200-element and inconsistently ordered arrays), every ordered pair of a 33-value sub-pool (of all 103 in thorough), '
-            '200 (20000) random 3-5 argument lists per function, 4000 (200000) calls through scripts (compile, validate, optimize, execute) - in the four builds '
+            'for every non-variadic function with three or more parameters 9 subjects x 21 x 21 extreme second/third arguments, 200 (20000) random 3-5 argument lists per function, 4000 (200000) calls through scripts (compile, validate, optimize, execute) - in the four builds '
             '{overflow checks on, off} x {default, zero_based_strings}, each in child processes with crash isolation and a per-case time cap; a panic, abort or hang is '
             'a violation; results of the modelled functions are compared with the Coq models')
     assumptions = COMMON_ASSUME + ['library internals (chrono, regex-lite, slice::sort) are exercised, not proved', 'memory use is bounded only by the per-process address space, not measured per call']
@@ -339,8 +345,9 @@ class C14(Prop):
     o_fields = ['det', 'foldeq', 'hasheq']
     known_covers_k = True
     rule = ('every pure registered builtin on arrays whose elements are equal across kinds (1, \'1\', \'1.0\', true, 0, \'0\', false, \'\', -0), on the boundary '
-            'pool and on random argument lists: called twice in a row (det), folded by optimize and compared with the run-time call (foldeq), and evaluated in N '
-            'fresh processes (64 quick / 2000 thorough: each with its own randomly seeded hasher) whose complete outputs must be byte-identical; Hash for Value is '
+            'pool, on random argument lists and on clusters of NEARLY identical arguments (same second / different millisecond, adjacent doubles, texts differing in one character or in case) '
+            'interleaved with failing calls: called twice in a row (det), folded by optimize and compared with the run-time call (foldeq; a function registered impure must never be folded), '
+            'and evaluated in N fresh processes (64 quick / 2000 thorough: each with its own randomly seeded hasher and its own ORDER of the calls) whose outputs must be identical per call; Hash for Value is '
             'compared with the model\'s hash classes under a fixed-key hasher (hasheq); results of the modelled functions are compared with the Coq models')
     assumptions = COMMON_ASSUME + ['TZ-dependence of the RFC date functions is outside the property (identical arguments in an identical environment)']
     nproc = {'quick': 64, 'thorough': 2000}
